@@ -306,8 +306,25 @@ class _Shape(ast.NodeTransformer):
             return ast.copy_location(new, node)
         return node
 
+    @staticmethod
+    def _unbool(t):
+        # in a truth-test position bool(e) is e
+        while isinstance(t, ast.Call) and isinstance(t.func, ast.Name) and t.func.id == 'bool' and len(t.args) == 1 and not t.keywords and not isinstance(t.args[0], ast.Starred):
+            t = t.args[0]
+        if isinstance(t, ast.UnaryOp) and isinstance(t.op, ast.Not):
+            t.operand = _Shape._unbool(t.operand)
+        elif isinstance(t, ast.BoolOp):
+            t.values = [_Shape._unbool(v) for v in t.values]
+        return t
+
+    def visit_While(self, node):
+        self.generic_visit(node)
+        node.test = self._unbool(node.test)
+        return node
+
     def visit_If(self, node):
         self.generic_visit(node)
+        node.test = self._unbool(node.test)
         # an arm that only holds `pass` is no arm
         if node.orelse and all(isinstance(x, ast.Pass) for x in node.orelse):
             node.orelse = []
@@ -328,6 +345,7 @@ class _Shape(ast.NodeTransformer):
 
     def visit_IfExp(self, node):
         self.generic_visit(node)
+        node.test = self._unbool(node.test)
         while _negative(node.test):
             node.test = _positive(node.test)
             node.body, node.orelse = node.orelse, node.body
